@@ -89,6 +89,14 @@ Definition check_C07 (op : bytes) (input impl : arg) : arg :=
     match arg_nth 0 impl with
     | AL [AZ 0%Z; ia] =>
         let i := info_of_arg ia in
+        (* (b') constructed bundles: the harness also ran the PEM parser on the same file with its
+           PGP armor segments removed; PGP armor must contribute nothing to a generic PEM description *)
+        let without_pgp := arg_nth 3 input in
+        if (match without_pgp with AL [] => false | _ => true end)
+           && (bytes_eqb (i_desc i) (bs "unknown PEM data") || bytes_eqb (i_desc i) (bs "multiple PEM blocks"))
+           && negb (match result_of_obs without_pgp with Ok j => info_eqb i j | _ => false end)
+        then AS "PGP armor reported as generic PEM (the PEM description changes when the PGP armor is removed)"
+        else
         (* (b) PGP armor never reported as generic PEM: the PEM blocks described cannot outnumber
            the BEGIN markers that are not PGP armor *)
         let n_other := (count_occ_bytes (bs "-----BEGIN ") data - count_occ_bytes (bs "-----BEGIN PGP ") data)%nat in
@@ -102,12 +110,17 @@ Definition check_C07 (op : bytes) (input impl : arg) : arg :=
         | Some want =>
             if info_eqb i want then AL [] else AS "content with a format signature and well-formed for it is not described as that format"
         | None =>
-            (* (c) no trace of failed candidates: the result is empty or is exactly one parser's result *)
+            (* (c) later candidates are still tried, and failed ones leave no trace: with the
+               candidates computed from the table and the recorded sniffer verdicts, an empty
+               description means every candidate failed; a non-empty one is exactly one parser's result *)
             if info_eqb i empty_info then
-              (if existsb (fun o => match arg_nth 1 o with AL [AZ 0%Z; _] => true | _ => false end)
-                    (map (fun n => lookup_by r_parser n table oracle (AL []))
-                       (match arg_nth 1 impl with AL l => map arg_bytes l | _ => [] end))
-               then AS "a candidate parser succeeds but the description is empty" else AL [])
+              (match candidates_in (sniff_of oracle) table (arg_bytes (arg_nth 0 input)) data with
+               | Ok cands =>
+                   if existsb (fun n => match parse_of oracle n data with Ok _ => true | _ => false end) cands
+                   then AS "a candidate format parses this content but the description is empty (later candidates not tried?)"
+                   else AL []
+               | _ => AL []
+               end)
             else if existsb (fun o => match result_of_obs (arg_nth 1 o) with Ok j => info_eqb i j | _ => false end) oracle
             then AL [] else AS "description carries content that no single candidate parser produced"
         end
